@@ -130,16 +130,103 @@ theorem edit_ranges_ordered (old new : List α) (tr : Trace) (hv : ValidTrace ol
 example : (∀ i j : Nat, i < j → 3 * i + 2 ≤ 3 * j) ∧ ∀ i : Nat, 3 * i ≤ 3 * i + 2 := by
   constructor <;> intros <;> omega
 
+/-- **Positions are in bounds**: every change addresses an existing old element (`delete`/`replace`
+at `0 ≤ p < n`) or a gap behind one / before the first (`insert` at `-1 ≤ p < n`). -/
+theorem script_positions_in_bounds (old new : List α) (tr : Trace) (hv : ValidTrace old new tr) :
+    ∀ e ∈ computeWith old new tr, -1 ≤ e.1 ∧ e.1 < Int.ofNat old.length ∧
+      ((∀ it ld, e.2 ≠ Change.insert it ld) → 0 ≤ e.1) := by
+  intro e he
+  unfold computeWith at he
+  rw [sorted_eq_segs old new tr hv] at he
+  have hlow := fuse_gt (-2) _ (fun e' he' => by
+    have := (segs_sorted old new tr (-1) 0 0 hv (by simp)).1 e' he'; omega) e he
+  have hup := fuse_lt (Int.ofNat old.length) _
+    (segs_lt old new tr (-1) 0 0 hv (Nat.zero_le _) (by simp)) e he
+  exact ⟨by omega, hup, fuse_nonneg _ (segs_nonneg old new tr _ _ _) e he⟩
+
+/-- **Edit ranges lie inside the span of the old items**: for a non-empty old list and every
+monotone layout, each range is inside `[st 0, en (n-1)]` — from the start of the first old item to
+the end of the last one (for an empty old list the only possible change is the insert at `-1`,
+which the callers place at the document start / behind the last import). -/
+theorem edit_ranges_inside (old new : List α) (tr : Trace) (hv : ValidTrace old new tr)
+    (st en : Nat → Nat) (hmono : ∀ i j, i < j → en i ≤ st j) (hle : ∀ i, st i ≤ en i)
+    (hne : 0 < old.length) :
+    ∀ e ∈ computeWith old new tr,
+      st 0 ≤ (rangeOf st en e).1 ∧ (rangeOf st en e).1 ≤ (rangeOf st en e).2 ∧
+        (rangeOf st en e).2 ≤ en (old.length - 1) := by
+  intro e he
+  obtain ⟨h1, h2, h3⟩ := script_positions_in_bounds old new tr hv e he
+  have hst0 : ∀ j, st 0 ≤ st j := by
+    intro j
+    cases j with
+    | zero => exact Nat.le_refl _
+    | succ j => exact Nat.le_trans (hle 0) (hmono 0 (j + 1) (by omega))
+  have hen : ∀ i j, i ≤ j → en i ≤ en j := by
+    intro i j h
+    rcases Nat.lt_or_eq_of_le h with h | h
+    · exact Nat.le_trans (hmono i j h) (hle j)
+    · subst h; exact Nat.le_refl _
+  obtain ⟨p, c⟩ := e
+  simp only [Int.ofNat_eq_natCast] at h2
+  cases c with
+  | insert it ld =>
+    simp only [rangeOf]
+    by_cases hp : p < 0
+    · simp only [hp, ↓reduceIte]
+      exact ⟨Nat.le_refl _, Nat.le_refl _, Nat.le_trans (hst0 _) (hle _)⟩
+    · simp only [hp, ↓reduceIte]
+      exact ⟨Nat.le_trans (hst0 _) (hle _), Nat.le_refl _, hen _ _ (by omega)⟩
+  | delete x =>
+    have := h3 (by intro _ _ h; cases h)
+    simp only [rangeOf]
+    exact ⟨hst0 _, hle _, hen _ _ (by omega)⟩
+  | replace x y =>
+    have := h3 (by intro _ _ h; cases h)
+    simp only [rangeOf]
+    exact ⟨hst0 _, hle _, hen _ _ (by omega)⟩
+
+/-- **The auto-import shape** (`generate_auto_import_edits`, lib.rs:554-575, diffs `imports` against
+`imports ++ [new import]`): the search finds the diagonal trace in two rounds and the whole script
+is exactly one insert of `[x]` behind the last old element (`-1` = document start when there is no
+import) — fuel-free, for every list and every `x`, also when `x` already occurs in `old`. -/
+theorem diff_append_one (old : List α) (x : α) :
+    diff old (old ++ [x]) = some [(Int.ofNat old.length - 1, Change.insert [x] false)] := by
+  have hfuel : defaultFuel old (old ++ [x]) = (old.length + old.length + 1) + 1 + 1 := by
+    simp [defaultFuel]; omega
+  have htrace : longestTrace (defaultFuel old (old ++ [x])) old (old ++ [x]) = some (diag 0 old.length) := by
+    unfold longestTrace
+    rw [hfuel, snake_diag old x old.length 0 [] (by omega)]
+    have hne : ¬ (old.length = old.length ∧ old.length = old.length + 1) := by omega
+    have f1 : ∀ t, followSnake old (old ++ [x]) (old.length + 1) old.length t = (old.length + 1, old.length, t) := by
+      intro t; rw [followSnake]; simp only [show ¬ (old.length + 1 < old.length) by omega, ↓reduceDIte]
+    have f2 : ∀ t, followSnake old (old ++ [x]) old.length (old.length + 1) t = (old.length, old.length + 1, t) := by
+      intro t; rw [followSnake]; simp only [Nat.lt_irrefl, ↓reduceDIte]
+    simp [bfs, lookupV, expand, visit, f1, f2]
+  unfold diff compute
+  rw [htrace]
+  simp only [Option.map_some, Option.some.injEq]
+  have hv : ValidTrace old (old ++ [x]) (diag 0 old.length) := trace_valid _ _ _ _ htrace
+  unfold computeWith
+  rw [sorted_eq_segs old (old ++ [x]) _ hv]
+  have := segs_diag old x old.length 0 (by omega)
+  simp only [Int.ofNat_eq_natCast, Int.cast_ofNat_Int, Int.zero_sub] at this
+  simp only [Int.ofNat_eq_natCast]
+  rw [this]
+  simp [fuse]
+
+/-- The range of that single edit: the empty range at the end of the last import. -/
+example (st en : Nat → Nat) (n : Nat) (x : Nat) (h : 0 < n) :
+    rangeOf st en ((Int.ofNat n - 1 : Int), Change.insert [x] false) = (en (n - 1), en (n - 1)) := by
+  have h1 : ¬ (Int.ofNat n - 1 < 0) := by simp only [Int.ofNat_eq_natCast]; omega
+  have h2 : (Int.ofNat n - 1).toNat = n - 1 := by simp only [Int.ofNat_eq_natCast]; omega
+  simp only [rangeOf, h1, ↓reduceIte, h2]
+
 /-
 Stated, not yet proved (kept as comments, listed as `pending` in the evidence):
 
 theorem longestTrace_total (old new : List α) :
     ∃ tr, longestTrace (defaultFuel old new) old new = some tr
   -- BFS completeness: (n, m) is reachable from the first snake end in ≤ n + m rounds.
-
-theorem diff_append_one (old : List α) (x : α) :
-    diff old (old ++ [x]) = some [(Int.ofNat old.length - 1, Change.insert [x] false)]
-  -- the auto-import shape (lib.rs:554-575): exactly one zero-width insert behind the last import.
 -/
 
 end SamVerif.Differ
